@@ -3,6 +3,7 @@ import os
 
 from harness import common
 from harness import gen
+from harness import proggen
 from harness import semrun
 
 PROP = 'C02'
@@ -16,10 +17,22 @@ def Cases(tier):
     prog, query, feats = gen.Generate(rng, gen.AGG)
     cases.append({'id': 'g%d' % i, 'prog': prog, 'query': query,
                   'meta': {'features': feats, 'source': 'random'}})
-  return cases + semrun.Reproducers(PROP)
+  # spec -> code: programs enumerated by TLC from spec/ProgGen.tla
+  if tier == 'quick':
+    pg, st, gen_, total = proggen.Cases('ProgGen_agg_q.cfg', 250, rng, 'pg')
+  else:
+    pg, st, gen_, total = proggen.Cases('ProgGen_agg_q.cfg', None, rng, 'pg')
+    pg2, st2, gen2, total2 = proggen.Cases('ProgGen_agg_t.cfg', 4000, rng, 'pgt')
+    pg, st, gen_, total = pg + pg2, st + st2, gen_ + gen2, total + total2
+  EXTRA.update(proggen_states=st, proggen_transitions=gen_,
+               proggen_programs_enumerated=total, proggen_replayed=len(pg))
+  return cases + pg + semrun.Reproducers(PROP)
 
 
-REQUIRED = ['distinct', 'multi_body_agg', 'negation', 'neg_conj', 'nested_agg',
+EXTRA = {}
+
+REQUIRED = ['proggen', 'pg_negation', 'pg_agg_Sum', 'pg_agg_List', 'pg_head_agg',
+            'distinct', 'multi_body_agg', 'negation', 'neg_conj', 'nested_agg',
             'argminmax', 'clash_local_names', 'aggexpr_corr0', 'aggexpr_corr1',
             'aggexpr_corr2', 'head_agg_Sum', 'head_agg_Min', 'head_agg_Max',
             'head_agg_Count', 'head_agg_List', 'head_agg_Set', 'head_agg_ArgMin',
@@ -32,7 +45,8 @@ def Run(tier):
       rule='random programs of the aggregation profile (harness/gen.py profile AGG): predicate-level and multi-body aggregation, aggregating expressions in the three syntaxes correlated with 0/1/2 outer variables, nested combines and sibling combines sharing local names, negation of atoms and conjunctions, null facts, empty groups, ties; TLC decides observed rows = LSem!Den with LValues!Agg',
       assumptions=['spec/LSem.tla + LValues.tla encode docs/learn/logica.md',
                    'harness/ir.py renderer is trusted',
-                   'fragment exclusions of harness/gen.py (R2 of DESIGN.md)'])
+                   'fragment exclusions of harness/gen.py (R2 of DESIGN.md)'],
+      extra_coverage=EXTRA)
 
 
 def Replay(path):
